@@ -238,6 +238,12 @@ func drawBuiltSource(r *sim.Run) *objSource {
 		return nil
 	}
 	stream := append([]byte(nil), p.EncInit...)
+	noInit := t.Chance(400)
+	if noInit {
+		// media segments on their own: the decoder does not know the IV size and has to infer it (senc vs saiz)
+		stream = nil
+		r.Probe("object-source-encrypted-without-init")
+	}
 	for _, s := range p.EncSegs {
 		stream = append(stream, s...)
 	}
@@ -246,7 +252,7 @@ func drawBuiltSource(r *sim.Run) *objSource {
 	if err != nil || f == nil {
 		return nil
 	}
-	src := &objSource{desc: "encrypted-production(" + scheme + ")", bytes: stream, file: f}
+	src := &objSource{desc: fmt.Sprintf("encrypted-production(%s, with init=%v)", scheme, !noInit), bytes: stream, file: f}
 	src.nodes = collectNodes("enc", f)
 	r.Probe("object-source-encrypted")
 	return src
